@@ -405,6 +405,13 @@ impl Call {
                 if matches!(f, Form::GenControlReq | Form::GenControlResp) && rng.chance(1, 2) {
                     c.hdr = Some(rng.bytes(2));
                 }
+                // the canonical header of the raw vendor generators (the vendor ID itself) half the time
+                if matches!(f, Form::GenPciReq | Form::GenPciResp) && rng.chance(1, 2) {
+                    c.hdr = Some(rng.bytes(2));
+                }
+                if matches!(f, Form::GenIanaReq | Form::GenIanaResp) && rng.chance(1, 2) {
+                    c.hdr = Some(rng.bytes(4));
+                }
                 let n = body_len(rng, max_body);
                 c.blob = rng.pattern_bytes(n);
             }
@@ -580,11 +587,14 @@ pub fn invoke_on(ctx: &MCTPSMBusContext, c: &Call, buf: &mut [u8], set_eids: boo
     let resp = ctx.get_response();
     if set_eids {
         if c.form.on_response_half() {
-            resp.set_eid(c.eid_this);
+            // the half that encodes is stored LAST: whether a store on one half is visible through
+            // the other is not fixed by any property (C13 speaks of "the EID ... stored directly
+            // through an accessor"), so the encoder's own half must hold eid_this either way
             req.set_eid(c.eid_other);
+            resp.set_eid(c.eid_this);
         } else {
-            req.set_eid(c.eid_this);
             resp.set_eid(c.eid_other);
+            req.set_eid(c.eid_this);
         }
     }
     let d = c.dest;
@@ -731,6 +741,11 @@ pub struct Exp {
     /// how many leading body bytes the layout properties constrain (all, except for responses
     /// with a non-Success completion code where only the 3 header bytes are)
     pub judged: usize,
+    /// Some(why): the arguments are outside the documented shape of the call (a PCI vendor ID
+    /// wider than 16 bits, a raw PCI/IANA generator given a header that is not the 2-/4-byte
+    /// vendor ID). If the encoder encodes them the bytes must be `body`; a refusal with `Err(())`
+    /// is not judged (the quantifiers of C08/C16 stop at the documented shapes).
+    pub may_refuse: Option<&'static str>,
 }
 
 impl Exp {
@@ -751,6 +766,7 @@ pub fn expected(c: &Call) -> Exp {
     let mut flags_exact = true;
     let mut body: Vec<u8> = Vec::new();
     let mut judged_override: Option<usize> = None;
+    let mut may_refuse: Option<&'static str> = None;
     if c.form.is_request() {
         body.push(0x80);
         body.push(c.form.command_code().unwrap());
@@ -800,6 +816,9 @@ pub fn expected(c: &Call) -> Exp {
             match p[0] {
                 0 => {
                     ty = TY_PCI;
+                    if c.data32 > 0xFFFF {
+                        may_refuse = Some("PCI vendor ID wider than 16 bits");
+                    }
                     body.extend_from_slice(&[(c.data32 >> 8) as u8, c.data32 as u8]);
                 }
                 1 => {
@@ -850,6 +869,12 @@ pub fn expected(c: &Call) -> Exp {
                     }
                 }
             };
+            let hl = c.hdr.as_ref().map(|h| h.len());
+            match c.form {
+                Form::GenPciReq | Form::GenPciResp if hl != Some(2) => may_refuse = Some("raw PCI generator without a 2-byte vendor ID header"),
+                Form::GenIanaReq | Form::GenIanaResp if hl != Some(4) => may_refuse = Some("raw IANA generator without a 4-byte enterprise number header"),
+                _ => {}
+            }
             if let Some(h) = &c.hdr {
                 body.extend_from_slice(h);
             }
@@ -860,7 +885,7 @@ pub fn expected(c: &Call) -> Exp {
         outcome = Outcome::TooBig;
     }
     let judged = judged_override.unwrap_or(body.len());
-    Exp { outcome, kind, ty, flags_exact, body, judged }
+    Exp { outcome, kind, ty, flags_exact, body, judged, may_refuse }
 }
 
 /// Encode a call into a fresh, poisoned buffer of `cap` bytes. Returns (result, buffer, poison).
